@@ -30,55 +30,91 @@ func isPanicBody(body []ast.Stmt) bool {
 	return ok && id.Name == "panic"
 }
 
+// cmpTypeSwitch finds, in fn or in the same-package functions it calls (two levels: Cmp may hand the work to helpers), the
+// switch whose tag is an identifier and whose case expressions are all names of object type constants, at least five of them.
+func cmpTypeSwitch(decls map[string]*ast.FuncDecl, fn *ast.FuncDecl, depth int, seen map[string]bool) *ast.SwitchStmt {
+	if fn == nil || fn.Body == nil || seen[fn.Name.Name] {
+		return nil
+	}
+	seen[fn.Name.Name] = true
+	var res *ast.SwitchStmt
+	var callees []string
+	ast.Inspect(fn.Body, func(n ast.Node) bool {
+		if res != nil {
+			return false
+		}
+		switch x := n.(type) {
+		case *ast.SwitchStmt:
+			if _, ok := x.Tag.(*ast.Ident); !ok {
+				return true
+			}
+			names := 0
+			for _, s := range x.Body.List {
+				for _, e := range s.(*ast.CaseClause).List {
+					id, ok := e.(*ast.Ident)
+					if !ok {
+						return true
+					}
+					if _, ok := consts["object."+id.Name]; !ok {
+						return true
+					}
+					names++
+				}
+			}
+			if names >= 5 {
+				res = x
+				return false
+			}
+		case *ast.CallExpr:
+			if id, ok := x.Fun.(*ast.Ident); ok {
+				callees = append(callees, id.Name)
+			}
+		}
+		return true
+	})
+	if res != nil || depth == 0 {
+		return res
+	}
+	for _, c := range callees {
+		if r := cmpTypeSwitch(decls, decls[c], depth-1, seen); r != nil {
+			return r
+		}
+	}
+	return nil
+}
+
 func genCmp() {
 	p := pkgs["object"]
-	var fn *ast.FuncDecl
+	decls := map[string]*ast.FuncDecl{}
 	for _, f := range p.files {
 		for _, d := range f.Decls {
-			if fd, ok := d.(*ast.FuncDecl); ok && fd.Recv == nil && fd.Name.Name == "Cmp" {
-				fn = fd
+			if fd, ok := d.(*ast.FuncDecl); ok && fd.Recv == nil {
+				decls[fd.Name.Name] = fd
 			}
 		}
 	}
+	fn := decls["Cmp"]
 	if fn == nil || fn.Body == nil {
 		fatal("object.Cmp not found")
 	}
 	var panics, cased []string
-	found := false
-	ast.Inspect(fn.Body, func(n ast.Node) bool {
-		sw, ok := n.(*ast.SwitchStmt)
-		if !ok {
-			return true
-		}
-		tag, ok := sw.Tag.(*ast.Ident)
-		if !ok || tag.Name != "ti" {
-			return true
-		}
-		found = true
-		for _, s := range sw.Body.List {
-			cc := s.(*ast.CaseClause)
-			for _, e := range cc.List {
-				id, ok := e.(*ast.Ident)
-				if !ok {
-					fatal("object.Cmp: case expression is not a type name")
-				}
-				v, ok := consts["object."+id.Name]
-				if !ok {
-					fatal("object.Cmp: unknown type name %s", id.Name)
-				}
-				cased = append(cased, zlit(v))
-				if isPanicBody(cc.Body) {
-					panics = append(panics, zlit(v))
-				}
-			}
-			if cc.List == nil && isPanicBody(cc.Body) { // a panicking default clause: every type not cased
-				fatal("object.Cmp: panicking default clause not supported by the translator")
+	sw := cmpTypeSwitch(decls, fn, 2, map[string]bool{})
+	if sw == nil {
+		fatal("object.Cmp: the switch over the type ordinal was not found in Cmp or in the helpers it calls")
+	}
+	for _, s := range sw.Body.List {
+		cc := s.(*ast.CaseClause)
+		for _, e := range cc.List {
+			id := e.(*ast.Ident)
+			v := consts["object."+id.Name]
+			cased = append(cased, zlit(v))
+			if isPanicBody(cc.Body) {
+				panics = append(panics, zlit(v))
 			}
 		}
-		return false
-	})
-	if !found {
-		fatal("object.Cmp: `switch ti` not found")
+		if cc.List == nil && isPanicBody(cc.Body) { // a panicking default clause: every type not cased
+			fatal("object.Cmp: panicking default clause not supported by the translator")
+		}
 	}
 	var b strings.Builder
 	b.WriteString("(* from func Cmp of object/object.go: ordinals in the case clauses of `switch ti` whose body panics *)\n")
